@@ -1224,9 +1224,9 @@ func (t *tree) expect(expected itemType, context string) item {
 // unexpected complains about the token and terminates processing.
 func (t *tree) unexpected(token item, context string) {
 	if token.typ == itemError {
-		t.errorf("lexical error: %v", token)
+		t.errorAt(token, "lexical error: %v", token)
 	}
-	t.errorf("unexpected %v in %s", token, context)
+	t.errorAt(token, "unexpected %v in %s", token, context)
 }
 
 // errorf formats the error and terminates processing.
@@ -1236,6 +1236,14 @@ func (t *tree) errorf(format string, args ...interface{}) {
 	if t.peekCount > 0 {
 		tok = t.token[t.peekCount-1]
 	}
+	t.errorAt(tok, format, args...)
+}
+
+// errorAt reports the error at the position of the given token.  A complaint
+// about a token is made there and not at the current token: by the time the
+// parser complains it may have read past the offending token, and past the last
+// token there are only zero items.
+func (t *tree) errorAt(tok item, format string, args ...interface{}) {
 	t.root = nil
 	format = fmt.Sprintf("template %s:%d:%d: %s", t.name,
 		t.lex.lineNumber(tok.pos), t.lex.columnNumber(tok.pos), format)
